@@ -15,6 +15,8 @@ pub struct Cfg {
     pub outages: bool,
     pub minutes: u64,
     pub latency: u64,
+    /// the contacts advertise one more node towards which every send fails (host unreachable)
+    pub unreachable_hearsay: bool,
     pub rng_seed: u64,
 }
 
@@ -39,7 +41,12 @@ pub fn node_id() -> InfoHash {
 pub fn build(cfg: &Cfg) -> (Scenario, Vec<Box<dyn Peer>>) {
     let mut sc = Scenario::new(&format!("refresh-cadence {:?}", cfg));
     sc.rng_seed = cfg.rng_seed;
-    let universe: Arc<Vec<([u8; 20], SocketAddr)>> = Arc::new((0..cfg.contacts).map(|i| (contact_id(i), contact_addr(i))).collect());
+    let mut uni: Vec<([u8; 20], SocketAddr)> = (0..cfg.contacts).map(|i| (contact_id(i), contact_addr(i))).collect();
+    if cfg.unreachable_hearsay {
+        uni.push((contact_id(77), contact_addr(77)));
+        sc.fail_dst = vec![contact_addr(77)];
+    }
+    let universe: Arc<Vec<([u8; 20], SocketAddr)>> = Arc::new(uni);
     let mut peers: Vec<Box<dyn Peer>> = vec![];
     for i in 0..cfg.contacts {
         let mut r = Responder::new(contact_addr(i), contact_id(i), universe.clone());
@@ -134,7 +141,7 @@ pub fn judge(cfg: &Cfg, res: &RunResult) -> Verdict {
 }
 
 fn cfg_json(c: &Cfg) -> Value {
-    json!({"contacts":c.contacts,"outages":c.outages,"minutes":c.minutes,"latency":c.latency,"rng_seed":c.rng_seed})
+    json!({"contacts":c.contacts,"outages":c.outages,"minutes":c.minutes,"latency":c.latency,"unreachable_hearsay":c.unreachable_hearsay,"rng_seed":c.rng_seed})
 }
 
 pub fn replay(v: &Value) -> i32 {
@@ -144,6 +151,7 @@ pub fn replay(v: &Value) -> i32 {
         outages: c["outages"].as_bool().unwrap_or(false),
         minutes: c["minutes"].as_u64().unwrap_or(10),
         latency: c["latency"].as_u64().unwrap_or(20),
+        unreachable_hearsay: c["unreachable_hearsay"].as_bool().unwrap_or(false),
         rng_seed: c["rng_seed"].as_u64().unwrap_or(1),
     };
     let (sc, peers) = build(&cfg);
@@ -171,13 +179,16 @@ pub fn run(tier: Tier) -> Report {
                     if minutes >= 360 && latency != 20 {
                         continue;
                     }
-                    cfgs.push(Cfg { contacts, outages, minutes, latency, rng_seed: 1 + seed });
+                    cfgs.push(Cfg { contacts, outages, minutes, latency, unreachable_hearsay: false, rng_seed: 1 + seed });
+                    if latency == 20 {
+                        cfgs.push(Cfg { contacts, outages, minutes, latency, unreachable_hearsay: true, rng_seed: 1 + seed });
+                    }
                 }
             }
         }
     }
     if tier == Tier::Quick {
-        cfgs.push(Cfg { contacts: 1, outages: true, minutes: 70, latency: 20, rng_seed: 1 + seed });
+        cfgs.push(Cfg { contacts: 1, outages: true, minutes: 70, latency: 20, unreachable_hearsay: false, rng_seed: 1 + seed });
     }
     let outs = par_map(&cfgs, |_, cfg| {
         let (sc, peers) = build(cfg);
